@@ -352,3 +352,101 @@ GROUP_RESULTS = dict(name="result_objects_across_a_history_of_runs", fn="harness
 
 def result_cases(thorough):
     return [dict(N=1, history=["b", "a", "b"]), dict(N=2, history=["b", "a", "b"])] + ([dict(N=1, history=["b", "a", "a", "b"]), dict(N=2, history=["a", "b", "a"])] if thorough else [])
+
+
+# =====================================================================================================================================
+# The LP builder across a history of runs: B, A, B.  The linear programme built for the second B must be the one built for the first.
+# =====================================================================================================================================
+def _lp_cfg(tag, opt, store):
+    from lpsym import model as LM
+    full = dict.fromkeys(LM.FOODS, True)
+    # A is a country under 10 million people (the builder has a branch on that), B a large one; same supply symbols for both runs of B
+    return LM.default_cfg(N=3, opt=opt, store=store, flags=full, pop=5e5 if tag == "a" else 5e7, tag="hist_%s_" % tag)
+
+
+def worker_lp_history(case, seed):
+    import z3
+    from lpsym import model as LM
+    from lpsym import queries as Q
+    built = []
+    for tag in case["history"]:
+        M = LM.build(_lp_cfg(tag, case["opt"], case["store"]))
+        built.append((tag, M))
+    obligations = {"the linear programme built for a run repeated after other runs is the one built the first time (same rows, same coefficients, same bounds)": dict(unsat=0, sat=0, unknown=0)}
+    ob = list(obligations.values())[0]
+    cex = []
+    queries = 0
+    first = {}
+    for tag, M in built:
+        if tag not in first:
+            first[tag] = M
+            continue
+        M0 = first[tag]
+        names0, names1 = sorted(M0.cons), sorted(M.cons)
+        if names0 != names1:
+            ob["sat"] += 1
+            cex.append(dict(obligation=list(obligations)[0], model={}, info="rows differ: %s" % sorted(set(names0) ^ set(names1))[:6]))
+            continue
+        s = z3.SolverFor("QF_LRA")
+        s.set("timeout", 60000)
+        for n in names0:
+            queries += 1
+            if z3.eq(M0.cons[n], M.cons[n]):
+                ob["unsat"] += 1
+                continue
+            # not syntactically identical: equivalent for all values?
+            s.push()
+            s.add(M0.cons[n] != M.cons[n])
+            r = str(s.check())
+            s.pop()
+            ob[r if r in ("unsat", "unknown") else "sat"] += 1
+            if r == "sat":
+                cex.append(dict(obligation=list(obligations)[0], model={}, info="row %s differs between the first and the repeated run" % n, row=n))
+        b0 = sorted(str(b) for b in M0.bounds)
+        b1 = sorted(str(b) for b in M.bounds)
+        queries += 1
+        ob["unsat" if b0 == b1 else "sat"] += 1
+        if b0 != b1:
+            cex.append(dict(obligation=list(obligations)[0], model={}, info="variable bounds differ"))
+    st = dict(paths=1, completed=1, pruned_by_code_assertions=0, pruned_other=0, queries=queries, solver_s=0.0, branches=0, unsat=ob["unsat"], sat=ob["sat"], unknown=ob["unknown"], forks=0)
+    return dict(stats=st, obligations=obligations, cex=cex[:3], errors=[], n_errors=0, canary_bad=0)
+
+
+def replay_lp_history(case, cx):
+    """the same history with the REAL PuLP: build the first-stage LP for B, A, B on concrete supplies and compare the two B programmes row by row"""
+    import random
+    from lpsym import capture as CP
+    from harness.C02_optimum import _concrete_vals
+    case = case if isinstance(case, dict) else json.loads(case)
+    rng = random.Random(31)
+    dicts = {}
+    bad = []
+    vals = {}
+    for tag in case["history"]:
+        cfg = _lp_cfg(tag, case["opt"], case["store"])
+        if tag not in vals:
+            vals[tag] = _concrete_vals(cfg, rng)
+        growth = [140.0 + 3.0 * (m % 5) for m in range(cfg["N"])]
+        d = CP.real_first_stage_dict(cfg, vals[tag], growth)
+        rows = {k["name"]: (k["sense"], round(k["constant"], 12), tuple(sorted((t["name"], round(t["value"], 12)) for t in k["coefficients"]))) for k in d["constraints"]}
+        if tag in dicts:
+            for n in sorted(set(rows) | set(dicts[tag])):
+                if rows.get(n) != dicts[tag].get(n):
+                    bad.append("row %s: first run %s, repeated run %s" % (n, str(dicts[tag].get(n))[:120], str(rows.get(n))[:120]))
+        else:
+            dicts[tag] = rows
+    return dict(reproduced=bool(bad), what="history %s (%s round): %s" % (case["history"], case["opt"], "; ".join(bad[:2])), inputs=dict(case=case), key="history/LP of a repeated run differs")
+
+
+GROUP_LP = dict(name="linear_programme_across_a_history_of_runs", fn="harness.history:worker_lp_history", replay=replay_lp_history,
+                functions=["Optimizer.__init__", "Optimizer.add_variables_and_constraints_to_model and every add_*_to_model it calls", "assign_predetermined_human_consumption_of_foods"],
+                bounds="histories B,A,B and B,A,A,B (A: a country under 10 million people, B: 50 million); 3 months, all foods, both round types, storage on/off",
+                symbolic="every supply of every run (the two runs of B share their symbols)", assumptions=[], stubs=["lpsym/standin.py"],
+                outside=["state carried by PuLP/CBC themselves", "horizons beyond 3 months (the builder is the same code per month)"])
+
+
+def lp_cases(thorough):
+    out = [dict(history=["b", "a", "b"], opt=o, store=s) for o in ("to_animals", "to_humans") for s in (True, False)]
+    if thorough:
+        out += [dict(history=["b", "a", "a", "b"], opt="to_animals", store=True), dict(history=["a", "b", "a"], opt="to_animals", store=True)]
+    return out
